@@ -57,6 +57,9 @@ fn run_case(ctx: &mut Ctx, idx: u64) {
         let k = 1 + rng.below(5);
         let to_completion = rng.chance(1, 6);
         let via_fresh = rng.chance(1, 2);
+        // a blind phase in three hands all its tokens to the engine in ONE consume_tokens call
+        let batch = via_fresh && rng.chance(1, 3);
+        let mut pending: Vec<u32> = vec![];
         let mut committed = 0;
         for step in 0..(if to_completion { 60 } else { k }) {
             if m.is_stopped() {
@@ -72,6 +75,12 @@ fn run_case(ctx: &mut Ctx, idx: u64) {
                 let Some(t) = walker::choose(&mut rng, &mask, &v, pol) else { break };
                 t
             };
+            if batch {
+                pending.push(t);
+                hist.push(t);
+                committed += 1;
+                continue;
+            }
             if m.consume_token(t).is_err() {
                 if via_fresh {
                     if crate::tp::accepted_with_relaxed_limits(&v, None, &g, &hist, t) {
@@ -87,6 +96,23 @@ fn run_case(ctx: &mut Ctx, idx: u64) {
             committed += 1;
             ops.push(format!("commit {t}"));
         }
+        if !pending.is_empty() {
+            let base = hist.len() - pending.len();
+            if m.consume_tokens(&pending).is_err() {
+                let ok_relaxed = (0..pending.len()).all(|i| crate::tp::accepted_with_relaxed_limits(&v, None, &g, &hist[..base + i], pending[i]));
+                if ok_relaxed {
+                    ctx.rep.inconclusive("resource_stop");
+                    return;
+                }
+                viol(ctx, idx, &g, &v, &hist[..base], &ops, "tokens_from_fresh_masks_rejected_in_one_call", json!({"tokens": pending}));
+                return;
+            }
+            for t in &pending {
+                ops.push(format!("commit {t}"));
+            }
+            ops.push(format!("^ last {} in one consume_tokens call", pending.len()));
+            ctx.rep.inc("batch_commits");
+        }
         if is_resource_stop(&m) {
             ctx.rep.inconclusive("resource_stop");
             return;
@@ -97,7 +123,21 @@ fn run_case(ctx: &mut Ctx, idx: u64) {
         if hist.is_empty() {
             break;
         }
-        let _ = committed;
+        // ---- "rolling back k and then committing other tokens": when this forward phase followed a rollback and ran
+        // without a single query on the engine under test, all behaviour on the new continuation must already equal
+        // that of an engine that never saw the rolled-back tokens
+        if via_fresh && committed > 0 && !m.is_stopped() && ops.iter().any(|o| o.starts_with("rollback") || o == "reset") {
+            match compare_queries_with_fresh(&mut rng, &mut m, &f, &g, &v, &hist, &ALL_QUERIES, true) {
+                Ok(n) => {
+                    ctx.rep.add("observable_checks", n as u64);
+                    ctx.rep.inc("blind_continuations_checked");
+                }
+                Err((kind, detail)) => {
+                    viol(ctx, idx, &g, &v, &hist, &ops, &format!("after_rollback_and_blind_commits_{kind}"), detail);
+                    return;
+                }
+            }
+        }
         // ---- rollback phase
         let j = match rng.below(6) {
             0 => hist.len(),
